@@ -1,8 +1,9 @@
 #!/bin/bash
-# usage: tools/seedcheck.sh <seed-dir-name> [tier]   applies seeded/<name>/patch.diff to /repo, runs the property's check, restores /repo
+# usage: tools/seedcheck.sh <seed-dir-name> [tier [other-property]]   applies seeded/<name>/patch.diff to /repo, runs the property's check, restores /repo
 NAME=$1; TIER=${2:-quick}
 HERE="$(cd "$(dirname "$0")/.." && pwd)"
-PROP=${NAME%%_*}
+PROP=${3:-${NAME%%_*}}      # optional 3rd argument: run ANOTHER property's check on this seed
+KEY=$TIER; [ -n "$3" ] && KEY="$TIER:$3"
 # the patch is applied to a scratch worktree of /repo HEAD (equivalent to: git -C /repo apply <patch>; ./check ...; git -C /repo checkout -- .
 # but /repo itself stays untouched, so several seed checks and a test-suite run can go on at the same time)
 WT=/tmp/seedcheck_wt_$$
@@ -16,7 +17,7 @@ import json,re
 p='$HERE/seeded/$NAME/meta.json'; m=json.load(open(p))
 log=open('/tmp/seedcheck_$$.log').read()
 viol=sorted(set(re.findall(r'obligation=(\S+) label=(\S+)',log)))
-m.setdefault('checks_run',{})['$TIER']={'cmd':'scratch worktree of /repo HEAD + git apply seeded/$NAME/patch.diff; PYTHONPATH=<wt>/src:<wt> ./check $PROP $TIER','exit':$RC,
+m.setdefault('checks_run',{})['$KEY']={'cmd':'scratch worktree of /repo HEAD + git apply seeded/$NAME/patch.diff; PYTHONPATH=<wt>/src:<wt> ./check $PROP $TIER','exit':$RC,
    'caught': $RC==1, 'violations':[{'obligation':o,'label':l} for o,l in viol][:12]}
 json.dump(m,open(p,'w'),indent=1)
 PY
